@@ -1333,7 +1333,7 @@ static void runCase2(verif::Run& run, const g2::P2& p) {
 
 int main(int argc, char** argv) {
     verif::Run run("C22", argc, argv);
-    run.setDeadline(1200, 7200);   // safety net only: quick needs about 200 CPU-s (50 s wall on 4 workers), see notes
+    run.setDeadline(1200, 3600);   // safety net only: quick needs about 200 CPU-s (50 s wall on 4 workers), see notes
     const bool thorough = run.thorough();
     run.rule = "a case = (value set, integrator, crossing pattern, direction-mask combination, action of handler 0, fixed/controlled step, report grid, scheduled-handler variant, driver); "
                "every case is one complete simulation to the final time, judged at every ReachedEventTrigger (raw driver) and on its handler log and report states (both drivers) against an analytic reference; "
